@@ -31,6 +31,8 @@ type Env struct {
 	loop    *loopInfo
 	bv      bool // bv64 mode
 	deps    map[string]bool
+	fuelSelf string // inside the body of this recursive spec function, self-calls use the bound fuel "ly"
+	fuelAll  bool   // in lemma axioms every fueled call uses the bound fuel "ly"
 }
 
 func (e *Env) clone() *Env {
@@ -978,6 +980,13 @@ func (env *Env) callSpec(sf *SpecFunc, args []Val) (Val, error) {
 		}
 	}
 	rs := P.sorts.sortOf(si.resT)
+	if si.fuel {
+		f := Term{"FMAX", "Fuel"}
+		if env.fuelAll || env.fuelSelf == sf.Name {
+			f = Term{"ly", "Fuel"}
+		}
+		ts = append([]Term{f}, ts...)
+	}
 	if len(ts) == 0 {
 		return Val{T: Term{si.sym, rs}, GoT: si.resT}, nil
 	}
